@@ -545,7 +545,8 @@ type T struct {
 	refDraws []any
 	mu       sync.RWMutex
 	failed   stopTest
-	parent   *T // set for the T passed to a Custom generator function
+	didFail  bool // failed may be "" (t.Error() or t.Errorf("")): the flag, not the message, says that the test case failed
+	parent   *T   // set for the T passed to a Custom generator function
 }
 
 func newT(tb tb, s bitStream, tbLog bool, rawLog *log.Logger, refDraws ...any) *T {
@@ -794,7 +795,7 @@ func (t *T) Failed() bool {
 	t.mu.RLock()
 	defer t.mu.RUnlock()
 
-	return t.failed != ""
+	return t.didFail
 }
 
 func (t *T) skip(msg string) {
@@ -806,6 +807,7 @@ func (t *T) fail(now bool, msg string) {
 	defer t.mu.Unlock()
 
 	t.failed = stopTest(msg)
+	t.didFail = true
 	if t.parent != nil {
 		// the test case owns the failure, not the short-lived T of a Custom generator function
 		t.parent.fail(false, msg)
@@ -821,6 +823,7 @@ func (t *T) resetFailed() stopTest {
 
 	failed := t.failed
 	t.failed = ""
+	t.didFail = false
 	return failed
 }
 
@@ -828,7 +831,7 @@ func (t *T) failOnError() {
 	t.mu.RLock()
 	defer t.mu.RUnlock()
 
-	if t.failed != "" {
+	if t.didFail {
 		panic(t.failed)
 	}
 }
